@@ -20,10 +20,35 @@ pub struct Sink {
     pub samples: Vec<Value>,
     /// set by the worker for the few cases whose description should be copied into the evidence
     pub sample_this: bool,
+    /// liveness + "what am I executing" channel to the supervising parent (long cases call `note`)
+    pub beat: Beat,
+}
+
+/// Pointer into the shared progress page (null when not running under the pool).
+#[derive(Clone, Copy)]
+pub struct Beat(pub *mut u8);
+unsafe impl Send for Beat {}
+unsafe impl Sync for Beat {}
+impl Beat {
+    /// Record what is about to be executed (truncated to 4000 bytes) and bump the liveness tick.
+    #[inline]
+    pub fn note(&self, s: &str) {
+        if self.0.is_null() {
+            return;
+        }
+        let b = s.as_bytes();
+        let n = b.len().min(4000);
+        unsafe {
+            std::ptr::copy_nonoverlapping(b.as_ptr(), self.0.add(24), n);
+            std::ptr::write_volatile(self.0.add(16) as *mut u64, n as u64);
+            let t = std::ptr::read_volatile(self.0 as *const u64);
+            std::ptr::write_volatile(self.0 as *mut u64, t.wrapping_add(1));
+        }
+    }
 }
 impl Sink {
     pub fn new() -> Sink {
-        Sink { evaluations: 0, hashes: vec![], violations: vec![], counters: BTreeMap::new(), samples: vec![], sample_this: false }
+        Sink { evaluations: 0, hashes: vec![], violations: vec![], counters: BTreeMap::new(), samples: vec![], sample_this: false, beat: Beat(std::ptr::null_mut()) }
     }
     pub fn count(&mut self, k: &str, n: u64) {
         *self.counters.entry(k.to_string()).or_insert(0) += n;
@@ -82,16 +107,18 @@ struct Progress {
 impl Progress {
     fn create(path: &str) -> Progress {
         let file = std::fs::OpenOptions::new().read(true).write(true).create(true).truncate(true).open(path).expect("progress file");
-        file.set_len(16).unwrap();
-        let ptr = unsafe { libc::mmap(std::ptr::null_mut(), 16, libc::PROT_READ | libc::PROT_WRITE, libc::MAP_SHARED, file.as_raw_fd(), 0) };
+        file.set_len(4096).unwrap();
+        let ptr = unsafe { libc::mmap(std::ptr::null_mut(), 4096, libc::PROT_READ | libc::PROT_WRITE, libc::MAP_SHARED, file.as_raw_fd(), 0) };
         assert!(ptr != libc::MAP_FAILED);
         Progress { ptr: ptr as *mut u64, _file: file }
     }
     #[inline]
-    fn set(&self, tick: u64, index: u64) {
+    fn set(&self, index: u64) {
         unsafe {
             std::ptr::write_volatile(self.ptr.add(1), index);
-            std::ptr::write_volatile(self.ptr, tick);
+            std::ptr::write_volatile(self.ptr.add(2), 0);
+            let t = std::ptr::read_volatile(self.ptr);
+            std::ptr::write_volatile(self.ptr, t.wrapping_add(1));
         }
     }
 }
@@ -99,6 +126,15 @@ fn read_progress(path: &str) -> (u64, u64) {
     match std::fs::read(path) {
         Ok(b) if b.len() >= 16 => (u64::from_le_bytes(b[0..8].try_into().unwrap()), u64::from_le_bytes(b[8..16].try_into().unwrap())),
         _ => (0, 0),
+    }
+}
+fn read_note(path: &str) -> String {
+    match std::fs::read(path) {
+        Ok(b) if b.len() >= 24 => {
+            let n = (u64::from_le_bytes(b[16..24].try_into().unwrap()) as usize).min(b.len() - 24);
+            String::from_utf8_lossy(&b[24..24 + n]).to_string()
+        }
+        _ => String::new(),
     }
 }
 
@@ -124,7 +160,6 @@ pub fn run_worker(space: &dyn Space, args: &[String]) -> i32 {
     quiet_panics();
     let stdout = std::io::stdout();
     let n = space.len();
-    let mut tick = 0u64;
     let mut kept: BTreeMap<(String, String, Vec<String>), usize> = BTreeMap::new();
     let mut c = (start / chunk).max(0);
     // first chunk that belongs to this shard at or after `start`
@@ -139,8 +174,8 @@ pub fn run_worker(space: &dyn Space, args: &[String]) -> i32 {
         let mut classes: BTreeMap<(String, String), u64> = BTreeMap::new();
         let mut done = 0u64;
         for i in lo..hi {
-            tick += 1;
-            prog.set(tick, i);
+            prog.set(i);
+            sink.beat = Beat(prog.ptr as *mut u8);
             sink.sample_this = samples_given < 3 && (i.wrapping_add(seed)) % stride == 0;
             let nv0 = sink.violations.len();
             let r = std::panic::catch_unwind(std::panic::AssertUnwindSafe(|| space.run(i, &mut sink)));
@@ -375,6 +410,7 @@ pub fn run_parent(ctx: &Ctx, space_id: &str, space: &dyn Space, cfg: &PoolCfg) -
             if exited && eof.contains(&shard) && !slots[idx].done {
                 // died without "D": crash in case `index` (abort, stack overflow, allocation failure, kill)
                 let status = slots[idx].child.wait().ok();
+                let note = read_note(&slots[idx].prog_path);
                 eof.remove(&shard);
                 if tick == 0 {
                     eprintln!("MACHINERY: worker {} of {} died before its first case ({:?})", shard, ctx.prop, status);
@@ -386,7 +422,7 @@ pub fn run_parent(ctx: &Ctx, space_id: &str, space: &dyn Space, cfg: &PoolCfg) -
                     symptom: "crash".into(),
                     tags: space.tags(index),
                     case: space.describe(index),
-                    detail: format!("worker process died ({:?}) while running case {}", status, index),
+                    detail: format!("worker process died ({:?}) while running case {}; executing: {}", status, index, note),
                 };
                 *res.class_counts.entry((v.clause.clone(), v.symptom.clone())).or_insert(0) += 1;
                 let k = kept.entry((v.clause.clone(), v.symptom.clone(), v.tags.clone())).or_insert(0);
@@ -401,6 +437,7 @@ pub fn run_parent(ctx: &Ctx, space_id: &str, space: &dyn Space, cfg: &PoolCfg) -
             let limit = if tick == 0 { startup_allowance } else { cfg.case_timeout };
             let since = if tick == 0 { slots[idx].started.elapsed() } else { slots[idx].last_change.elapsed() };
             if !exited && !slots[idx].done && since > limit {
+                let note = read_note(&slots[idx].prog_path);
                 let _ = slots[idx].child.kill();
                 let _ = slots[idx].child.wait();
                 // wait for its reader thread to finish
@@ -423,7 +460,7 @@ pub fn run_parent(ctx: &Ctx, space_id: &str, space: &dyn Space, cfg: &PoolCfg) -
                     symptom: "hang".into(),
                     tags: space.tags(index),
                     case: space.describe(index),
-                    detail: format!("case {} did not finish within {:?} (watchdog); worker killed", index, cfg.case_timeout),
+                    detail: format!("case {} made no progress for {:?} (watchdog); worker killed; executing: {}", index, cfg.case_timeout, note),
                 };
                 *res.class_counts.entry((v.clause.clone(), v.symptom.clone())).or_insert(0) += 1;
                 let k = kept.entry((v.clause.clone(), v.symptom.clone(), v.tags.clone())).or_insert(0);
